@@ -364,6 +364,7 @@ class Slicer:
         max_depth: int = 8,
         max_items: int = 20000,
         opaque: Optional[Iterable[str]] = None,
+        through_records: bool = False,
     ):
         self.prog = prog
         self.types = types
@@ -375,6 +376,7 @@ class Slicer:
         self.max_depth = max_depth
         self.max_items = max_items
         self.opaque = set(opaque or ())
+        self.through_records = through_records
 
     def slice(self, func: Func, expr: ast.AST) -> Slice:
         res = Slice()
@@ -474,6 +476,8 @@ class Slicer:
                 srcs = self.heap.field_sources(attr, cls_filter)
                 for sf, val, call in srcs:
                     push(sf, val, (), it, f"field {attr} set at {sf.loc(call)}")
+                if self.through_records:
+                    push(f, node.value, stack, it, f"record holding .{attr}", None)
                 if srcs or cls_filter:
                     return
             stores = self.heap.attr_stores.get(attr, [])
